@@ -157,7 +157,7 @@ def gen_program(rng, family="core", nfn=None):
         "dur": ["in", "in", "call", "call"],
         "untracked": ["in", "call", "call", "cell", "cell", "untr"],
         "lru": ["in", "in", "call", "call"],
-        "struct": ["in", "in", "call", "new", "new", "fld", "fld", "calls"],
+        "struct": ["in", "in", "call", "new", "new", "fld", "fld", "calls", "untr"],
         "spec": ["in", "in", "call", "new", "new", "fld", "calls", "spec", "spec"],
         "intern": ["in", "in", "call", "intern", "intern", "rdint", "calli"],
         "accum": ["in", "in", "call", "call", "acc", "acc"],
@@ -174,8 +174,16 @@ def gen_program(rng, family="core", nfn=None):
             kind = "q0"
             have_q0 = True
         callees = list(range(j + 1, nfn + 1))
+        ops_j = base_ops
+        if family == "accum" and callees and rng.random() < 0.6:
+            callees = [j + 1]          # chains: root -> mid -> leaf
+        if family == "accum":
+            # upper functions mostly call, the lowest ones accumulate depending on inputs
+            ops_j = ["in", "call", "call", "call", "acc"] if j < nfn - 1 else ["in", "in", "acc", "acc"]
+            if rng.random() < 0.5 and j < nfn - 1:
+                ops_j = ["in", "call", "call", "call"]
         spec = {
-            "nv": nv, "nin": nin, "ncell": ncell, "callees": callees, "ops": base_ops,
+            "nv": nv, "nin": nin, "ncell": ncell, "callees": callees, "ops": ops_j,
             "p_leaf": 0.2, "exports": exports,
             "sfams": [3, 3, 1] if family == "spec" else [1, 2],
             "ikinds": [1, 1, 2, 3, 4] if family == "intern" else ([1, 1, 1, 1, 2, 2] if family == "churn" else [1, 2, 3, 4]),
@@ -190,6 +198,11 @@ def gen_program(rng, family="core", nfn=None):
             tr.nodes[root - 1] = node("in", rng.randrange(nin) + 1, rng.randrange(2) + 1, 0, kids)
         else:
             build(rng, spec, rng.choice([2, 3, 3, 4]), tr, {"nh": 0, "ni": 0})
+        if family == "accum" and rng.random() < 0.5:
+            # equal results on every path: re-executions are backdated, only the accumulated values differ
+            for nd in tr.nodes:
+                if nd["op"] == "ret":
+                    nd["a"] = 0
         fwd = 1 if family in ("struct", "churn", "intern", "mixed") and rng.random() < (0.6 if family == "churn" else 0.35) else 0
         fns[j - 1] = {"kind": kind, "init": 0, "fwd": fwd, "nodes": tr.nodes}
         exports[j] = max_exports(tr.nodes) + (sum(exports.get(g, 0) for g in callees) if fwd else 0)
@@ -382,9 +395,14 @@ def gen_reclaim_program(rng):
            {"kind": rng.choice(["plain", "q2"]), "init": 0, "fwd": 0, "nodes": q_body()}]
     for _ in range(rng.choice([1, 2])):
         fns.append({"kind": "plain", "init": 0, "fwd": rng.choice([0, 1]), "nodes": r_body()})
+    # H: interns depending on a HIGH-durability input only (its values must never be reclaimed)
+    hv = interns(2)
+    h_nodes = [node("in", 3, 1, 0, [2, 4]), node("intern", k, hv[0], 0, [3]), node("ret", 0),
+               node("intern", k, hv[1], 0, [5]), node("ret", 1)]
+    fns.append({"kind": "plain", "init": 0, "fwd": 0, "nodes": h_nodes})
     ifn = [node("rdint", 1, 0, 0, [2, 3, 2, 3]), node("ret", 0), node("ret", 1)]
     sf = [node("ret", 0)]
-    return {"nv": 2, "inputs": [[[rng.randrange(2), 0], [rng.randrange(2), 0]] for _ in range(nin)], "cells": [],
+    return {"nv": 2, "inputs": [[[rng.randrange(2), 0], [rng.randrange(2), 0]] for _ in range(nin)] + [[[rng.randrange(2), 2], [0, 2]]], "cells": [],
             "fns": fns, "sfns": [{"kind": "splain", "init": 0, "nodes": sf}] * 2 + [{"kind": "sspec", "init": 0, "nodes": sf}],
             "ifns": [{"kind": "iplain", "init": 0, "nodes": ifn}], "lru_cap": 2}
 
@@ -396,8 +414,12 @@ def gen_reclaim_history(rng, prog, nops):
         r = rng.random()
         if r < 0.40:
             hist.append({"op": "set", "i": 2, "f": rng.randrange(2) + 1, "v": rng.randrange(2), "d": -1})
+        elif r < 0.70:
+            hist.append({"op": "get", "f": rng.randrange(3, nfn)})
+        elif r < 0.76:
+            hist.append({"op": "get", "f": nfn})
         elif r < 0.78:
-            hist.append({"op": "get", "f": rng.randrange(3, nfn + 1)})
+            hist.append({"op": "set", "i": 3, "f": 1, "v": rng.randrange(2), "d": -1})
         elif r < 0.84:
             hist.append({"op": "synth", "d": 0})
         elif r < 0.90:
@@ -406,6 +428,61 @@ def gen_reclaim_history(rng, prog, nops):
             hist.append({"op": "get", "f": 1})
         else:
             hist.append({"op": "get", "f": 2})
+    return hist
+
+
+def gen_accchain_program(rng):
+    """Template family for C11: a call chain whose lowest functions accumulate depending on inputs while
+    returning equal values (so upper functions are verified, not re-executed)."""
+    depth = rng.choice([3, 3, 4])
+    nin = 2
+    fns = []
+    leaf_fields = [(1, 1), (1, 2)]
+    for j in range(1, depth + 1):
+        if j < depth:
+            nodes = []
+            # optional read of an unrelated field (input 2), then call the next one (maybe twice), constant result
+            if rng.random() < 0.4:
+                nodes.append(node("in", 2, rng.randrange(2) + 1, 0, [2, 2]))
+            nodes.append(node("call", j + 1, 0, 0, [len(nodes) + 2, len(nodes) + 2]))
+            if rng.random() < 0.3 and j + 2 <= depth:
+                nodes.append(node("call", j + 2, 0, 0, [len(nodes) + 2, len(nodes) + 2]))
+            if rng.random() < 0.2:
+                nodes.append(node("acc", rng.randrange(4), 0, 0, [len(nodes) + 2]))
+            nodes.append(node("ret", 0))
+            fns.append({"kind": rng.choice(["plain", "plain", "q2"]), "init": 0, "fwd": 0, "nodes": nodes})
+        else:
+            i, f = rng.choice(leaf_fields)
+            a0, a1 = rng.randrange(4), rng.randrange(4)
+            variant = rng.randrange(3)
+            if variant == 0:      # accumulate only when the field is 1
+                nodes = [node("in", i, f, 0, [2, 3]), node("ret", 0), node("acc", a1, 0, 0, [4]), node("ret", 0)]
+            elif variant == 1:    # different values
+                nodes = [node("in", i, f, 0, [2, 4]), node("acc", a0, 0, 0, [3]), node("ret", 0), node("acc", a1, 0, 0, [5]), node("ret", 0)]
+            else:                 # accumulate only when 0, result differs
+                nodes = [node("in", i, f, 0, [2, 4]), node("acc", a0, 0, 0, [3]), node("ret", 0), node("ret", rng.randrange(2))]
+            fns.append({"kind": "plain", "init": 0, "fwd": 0, "nodes": nodes})
+    return {"nv": 2, "inputs": [[[rng.randrange(2), rng.choice([0, 0, 2])], [rng.randrange(2), 0]] for _ in range(nin)], "cells": [],
+            "fns": fns, "sfns": [], "ifns": [], "lru_cap": 2}
+
+
+def gen_accchain_history(rng, prog, nops):
+    nfn = len(prog["fns"])
+    hist = []
+    for _ in range(nops):
+        r = rng.random()
+        if r < 0.35:
+            hist.append({"op": "set", "i": 1, "f": rng.randrange(2) + 1, "v": rng.randrange(2), "d": rng.choice([-1, -1, 0])})
+        elif r < 0.42:
+            hist.append({"op": "set", "i": 2, "f": rng.randrange(2) + 1, "v": rng.randrange(2), "d": -1})
+        elif r < 0.47:
+            hist.append({"op": "synth", "d": rng.choice([0, 2])})
+        elif r < 0.80:
+            hist.append({"op": "accum", "f": rng.choice([1, 1, 1, 2])})
+        elif r < 0.90:
+            hist.append({"op": "accum", "f": rng.randrange(nfn) + 1})
+        else:
+            hist.append({"op": "get", "f": rng.randrange(nfn) + 1})
     return hist
 
 
@@ -424,7 +501,9 @@ def gen_history(rng, prog, nops, family="core"):
         w["evict"] = 1
         w["get"] = 8
     if family in ("accum",):
-        w["accum"] = 5
+        w["accum"] = 8
+        w["get"] = 2
+        w["set"] = 6
     if family in ("struct", "spec", "mixed", "churn"):
         w["gets"] = 3
     if family == "churn":
@@ -474,6 +553,9 @@ def gen_jobs(seed, njobs, family, nops):
         if family == "reclaim":
             prog = gen_reclaim_program(rng)
             hist = gen_reclaim_history(rng, prog, nops)
+        elif family == "accchain":
+            prog = gen_accchain_program(rng)
+            hist = gen_accchain_history(rng, prog, nops)
         else:
             prog = gen_cycle_program(rng, family) if family in CYCLE_FAMILIES else gen_program(rng, family)
             hist = gen_history(rng, prog, nops, family)
@@ -481,7 +563,67 @@ def gen_jobs(seed, njobs, family, nops):
     return jobs
 
 
+def gen_par_jobs(seed, njobs, family, nrounds=3):
+    """Parallel jobs: rounds of (sequential writes, then 2-4 threads of gets on clones).
+
+    family: pardag (acyclic, shared sub-queries; C16/C17), parfix / parfb (cycles entered from different
+    members; C18), parpcycle (unrecoverable cycles; C14), parintern (C08), parstruct (C24)
+    """
+    rng = random.Random(seed)
+    jobs = []
+    base = {"pardag": "dur", "parfix": "fix", "parfb": "fb", "parpcycle": "pcycle", "parintern": "churn",
+            "parstruct": "struct", "parcancel": "dur", "parwrite": "dur", "parwritefix": "fix", "parcancelfix": "fix", "parpanic": "dur"}[family]
+    for n in range(njobs):
+        if base in CYCLE_FAMILIES:
+            prog = gen_cycle_program(rng, base)
+        else:
+            prog = gen_program(rng, base, nfn=rng.choice([3, 4, 5, 6]))
+            for i in prog["inputs"]:
+                for f in i:
+                    if f[1] == 3:
+                        f[1] = 2
+        nfn = len(prog["fns"])
+        nin = len(prog["inputs"])
+        rounds = []
+        for r in range(nrounds):
+            pre = []
+            if r > 0:
+                for _ in range(rng.choice([1, 1, 2])):
+                    pre.append({"op": "set", "i": rng.randrange(nin) + 1, "f": rng.randrange(2) + 1,
+                                "v": rng.randrange(2), "d": rng.choice([-1, -1, 0, 2])})
+            if rng.random() < 0.3:
+                pre.append({"op": "get", "f": rng.randrange(nfn) + 1})
+            nthreads = rng.choice([2, 2, 3, 4])
+            threads = []
+            for t in range(nthreads):
+                threads.append([{"op": "get", "f": rng.randrange(nfn) + 1} for _ in range(rng.choice([1, 2, 3, 4]))])
+            writer, writer_after, cancels = [], 0, []
+            if family in ("parwrite", "parwritefix") and rng.random() < 0.8:
+                writer = [{"op": "set", "i": rng.randrange(nin) + 1, "f": rng.randrange(2) + 1, "v": rng.randrange(2),
+                           "d": rng.choice([-1, -1, 0, 2])}]
+                if rng.random() < 0.2:
+                    writer = [{"op": "synth", "d": rng.choice([0, 1, 2])}]
+                writer_after = rng.choice([0, 3, 8, 15, 25, 40, 60])
+                for th in threads:
+                    th += [{"op": "get", "f": rng.randrange(nfn) + 1} for _ in range(rng.choice([2, 4, 6]))]
+            if family in ("parcancel", "parcancelfix"):
+                for _ in range(rng.choice([1, 1, 2])):
+                    cancels.append([rng.randrange(nthreads) + 1, rng.choice([1, 4, 8, 15, 25, 40])])
+                for th in threads:
+                    th += [{"op": "get", "f": rng.randrange(nfn) + 1} for _ in range(rng.choice([1, 2, 3]))]
+            rounds.append({"pre": pre, "threads": threads, "writer": writer, "cancels": cancels, "writer_after": writer_after})
+        jobs.append({"id": n + 1, "prog": prog, "hist": [], "inject": 0, "seed": seed * 100003 + n, "mode": family,
+                     "rounds": rounds, "jitter": rng.choice([0, 50, 200, 500])})
+        if family == "parpanic":
+            jobs[-1]["inject"] = rng.choice([3, 5, 8, 12, 17, 23, 30, 40])
+    return jobs
+
+
 if __name__ == "__main__":
+    if sys.argv[3].startswith("par"):
+        for j in gen_par_jobs(int(sys.argv[1]), int(sys.argv[2]), sys.argv[3], int(sys.argv[4])):
+            print(json.dumps(j, separators=(",", ":")))
+        sys.exit(0)
     seed = int(sys.argv[1])
     njobs = int(sys.argv[2])
     family = sys.argv[3]
